@@ -51,16 +51,18 @@ theorem c13_radau_tolAdjust {n : Nat} (atol rtol : Vector K n) (i : Fin n) :
     (Gen.Radau.tolAdjust (atol := atol) (rtol := rtol) (expm := Gen.Radau.expm)).atol[i]
         = (1 : K) / 10 * SqrtPow.pow rtol[i] ((2 : K) / 3) * (atol[i] / rtol[i]) := radau_tolAdjust_spec atol rtol i
 
-theorem c13_reflect_rk4 {n : Nat} (Kc : Nat → Vector K n) (y k1 : Vector K n) (x h : K) :
-    (Gen.Rk4.stages (f := openF fun j => vneg (Kc j)) (y := y) (h := -h) (k1 := vneg k1) (x := -x)).calls
-      = (Gen.Rk4.stages (f := openF Kc) (y := y) (h := h) (k1 := k1) (x := x)).calls.map mirror :=
-  rk4_stages_reflect Kc y k1 x h
+theorem c13_reflect_rk4 {n : Nat} (Kc : Nat → Vector K n) (y k1 : Vector K n) (x h : K) (last : Bool) (xend : K)
+    (hl : last = true → xend = x + h) :
+    (Gen.Rk4.stages (f := openF fun j => vneg (Kc j)) (y := y) (h := -h) (k1 := vneg k1) (x := -x) (last := last) (xend := -xend)).calls
+      = (Gen.Rk4.stages (f := openF Kc) (y := y) (h := h) (k1 := k1) (x := x) (last := last) (xend := xend)).calls.map mirror :=
+  rk4_stages_reflect Kc y k1 x h last xend hl
 
-theorem c13_reflect_rk23 {n : Nat} (Kc : Nat → Vector K n) (y k1 : Vector K n) (x h : K) :
-    (Gen.Rk23.stages (f := openF fun j => vneg (Kc j)) (y := y) (h := -h) (k1 := vneg k1) (x := -x)).calls
-      = (Gen.Rk23.stages (f := openF Kc) (y := y) (h := h) (k1 := k1) (x := x)).calls.map mirror ∧
-    (Gen.Rk23.stages (f := openF fun j => vneg (Kc j)) (y := y) (h := -h) (k1 := vneg k1) (x := -x)).yt
-      = (Gen.Rk23.stages (f := openF Kc) (y := y) (h := h) (k1 := k1) (x := x)).yt := rk23_stages_reflect Kc y k1 x h
+theorem c13_reflect_rk23 {n : Nat} (Kc : Nat → Vector K n) (y k1 : Vector K n) (x h : K) (last : Bool) (xend : K)
+    (hl : last = true → xend = x + h) :
+    (Gen.Rk23.stages (f := openF fun j => vneg (Kc j)) (y := y) (h := -h) (k1 := vneg k1) (x := -x) (last := last) (xend := -xend)).calls
+      = (Gen.Rk23.stages (f := openF Kc) (y := y) (h := h) (k1 := k1) (x := x) (last := last) (xend := xend)).calls.map mirror ∧
+    (Gen.Rk23.stages (f := openF fun j => vneg (Kc j)) (y := y) (h := -h) (k1 := vneg k1) (x := -x) (last := last) (xend := -xend)).yt
+      = (Gen.Rk23.stages (f := openF Kc) (y := y) (h := h) (k1 := k1) (x := x) (last := last) (xend := xend)).yt := rk23_stages_reflect Kc y k1 x h last xend hl
 
 theorem c13_reflect_dopri5 {n : Nat} (Kc : Nat → Vector K n) (y k1 : Vector K n) (x h : K) (last : Bool) (xend : K)
     (hl : last = true → xend = x + h) :
@@ -117,9 +119,9 @@ theorem c13_scale_dopri5 {n : Nat} (c : K) (hc : 0 < c) (Kc : Nat → Vector K n
       = Gen.Dopri5.errnorm (atol := atol) (rtol := rtol) (y := y) (y1 := k1) (k4 := e) :=
   ⟨dopri5_stages_scale c Kc y k1 x h last xend hl, dopri5_errnorm_scale c hc atol rtol y k1 e⟩
 
-theorem c13_scale_rk23 {n : Nat} (c : K) (Kc : Nat → Vector K n) (y k1 : Vector K n) (x h : K) :
-    (Gen.Rk23.stages (f := openF fun j => vsmul c (Kc j)) (y := vsmul c y) (h := h) (k1 := vsmul c k1) (x := x)).yt
-      = vsmul c (Gen.Rk23.stages (f := openF Kc) (y := y) (h := h) (k1 := k1) (x := x)).yt := rk23_stages_scale c Kc y k1 x h
+theorem c13_scale_rk23 {n : Nat} (c : K) (Kc : Nat → Vector K n) (y k1 : Vector K n) (x h : K) (last : Bool) (xend : K) :
+    (Gen.Rk23.stages (f := openF fun j => vsmul c (Kc j)) (y := vsmul c y) (h := h) (k1 := vsmul c k1) (x := x) (last := last) (xend := xend)).yt
+      = vsmul c (Gen.Rk23.stages (f := openF Kc) (y := y) (h := h) (k1 := k1) (x := x) (last := last) (xend := xend)).yt := rk23_stages_scale c Kc y k1 x h last xend
 
 /-- Radau's two error norms (the estimate and the refined estimate of a first / retried step), as translated from the
     source, give the same value on `m` stacked copies as on one copy -/
